@@ -229,3 +229,30 @@ Proof.
   rewrite E. cbn [bind]. exists r'. split; [reflexivity|]. split; [|exact H2].
   rewrite H1. reflexivity.
 Qed.
+
+(* ---------- the constructor and the reverse complement ------------------------------ *)
+
+(* CircularRecord(record), as translated from __init__ (record branch, then fields branch): a
+   copy of the record as a CircularRecord; refused with ValueError when its topology annotation
+   is not "circular" (any letter case); an absent annotation is accepted *)
+Theorem CircularRecord_new_eq r : CircularRecord_new r = bio_CircularRecord_of r.
+Proof.
+  unfold CircularRecord_new, CircularRecord_init_record, CircularRecord_init_fields, bio_CircularRecord_of,
+    rec_annotations_dict, py_deepcopy, ann_get_topology, bio_SeqRecord_init, py_eq, PyEq_string.
+  cbn [bind py_seq pr_seq mk_Seq].
+  destruct (pr_annotations r) as [t|]; cbn [bind].
+  - destruct (String.eqb (str_lower t) "circular"); reflexivity.
+  - reflexivity.
+Qed.
+
+(* reverse_complement(), as translated: Biopython's reverse complement of the record (sequence
+   reverse-complemented, every feature flipped and the table sorted by start, tracks reversed),
+   wrapped again as a CircularRecord; annotations are not carried (annotations=False) *)
+Theorem CircularRecord_reverse_complement_eq r :
+  exists r', CircularRecord_reverse_complement r false false false true false true false = Ok r'
+    /\ pr_kind r' = KCircularRecord /\ to_record r' = rc_record (to_record r) /\ pr_id r' = pr_id r.
+Proof.
+  unfold CircularRecord_reverse_complement. rewrite CircularRecord_new_eq.
+  unfold bio_CircularRecord_of, bio_reverse_complement. cbn.
+  eexists. repeat split.
+Qed.
